@@ -5,6 +5,7 @@ package racetests
 
 import (
 	"encoding/json"
+	"errors"
 	"fmt"
 	"math/rand"
 	"os"
@@ -342,6 +343,33 @@ func TestConcurrent(t *testing.T) {
 				}
 			})
 			res.PerMix["merge-shared-files"]++
+		}
+		// E2: every goroutine merges its OWN file set containing a file that is no module: the error must name that file
+		{
+			res.OverlappingPairs += barrierRun(workers, func(w int) {
+				name := fmt.Sprintf("nomodule-%d-%d.fga", round, w)
+				files := []transformer.ModuleFile{
+					{Name: fmt.Sprintf("a-%d.fga", w), Contents: "module a\ntype user\n"},
+					{Name: name, Contents: "model\n  schema 1.1\ntype doc\n"},
+				}
+				_, err := transformer.TransformModuleFilesToModel(files, "1.2")
+				atomic.AddInt64(&calls, 1)
+				got := "<no error>"
+				var me *transformer.ModuleValidationMultipleError
+				if errors.As(err, &me) {
+					got = ""
+					for _, e := range me.Errors {
+						var se *transformer.ModuleTransformationSingleError
+						if errors.As(e, &se) {
+							got += se.Msg + "|" + se.File + ";"
+						}
+					}
+				}
+				if want := "file is not a module|" + name + ";"; got != want {
+					report(mismatch{Mix: "merge-distinct-non-module-files", Detail: "the error of a concurrent merge names another call's file", Texts: []string{name}, Expected: want, Observed: got})
+				}
+			})
+			res.PerMix["merge-distinct-non-module-files"]++
 		}
 		// G: validators and fga.mod
 		{
